@@ -21,7 +21,7 @@ ID = "C17"
 FACTS = ["Annot"]
 COQ_HEADER = "From SPV Require Import CorrDefs.CorrC17."
 COQ_CASE_TYPE = "case"
-RULE = ("corpus/C17 (minimised past failures) first. tree: 1-5 fields drawn from the CLI type grammar (int float str bool Enum, Optional[T], List[T], Tuple fixed and "
+RULE = ("corpus/C17 (minimised past failures) first. Per rendering also the registered options (strings, nargs, required, default, choices) and, for exits, status and stream; values and resolved types carry the identity of the rendering's own classes. tree: 1-5 fields drawn from the CLI type grammar (int float str bool Enum, Optional[T], List[T], Tuple fixed and "
         "variadic, Union of primitives, nested dataclass, Optional[nested], Optional of list/tuple/union; with lower weight "
         "List[Union], List[Optional], List[Tuple], Tuple[Union,..], Dict) plus optional InitVar / ClassVar / init=False / "
         "cmd=False members; every tree is written to 16 real modules = {typing generics, builtin generics, PEP 604 bars, "
@@ -564,13 +564,15 @@ def render_module(case, style, layout, scope):
         lines.append("")
     src = ("from __future__ import annotations\n" if fut else "") + HEAD
     if scope == "module":
-        src += "\n".join(lines) + "\n\ndef run(observe):\n    return observe(Cfg)\n"
+        src += "\n".join(lines) + "\n\ndef run(observe):\n    return observe(Cfg, {'Cfg': Cfg, 'In': In, 'E': E})\n"
     else:
-        src += "def run(observe):\n" + "\n".join(("    " + ln if ln else "") for ln in lines) + "\n    return observe(Cfg)\n"
+        src += "def run(observe):\n" + "\n".join(("    " + ln if ln else "") for ln in lines) + "\n    return observe(Cfg, {'Cfg': Cfg, 'In': In, 'E': E})\n"
     return src
 
 
-def canon_type(t):
+def canon_type(t, ns=None):
+    """canonical form of a resolved annotation; a class that merely has the NAME of one of the rendering's own classes
+    (E / In / Cfg of another module or of an earlier call) is marked: the declared class is what the statement is about"""
     import types
     import typing
     if t is None or t is type(None):
@@ -581,20 +583,64 @@ def canon_type(t):
         return ["atom", "str:" + t]
     o, a = typing.get_origin(t), typing.get_args(t)
     if isinstance(t, types.UnionType) or o is typing.Union:
-        return ["union", [canon_type(x) for x in a]]
+        return ["union", [canon_type(x, ns) for x in a]]
     if o is list:
-        return ["list", canon_type(a[0])] if len(a) == 1 else ["bad"]
+        return ["list", canon_type(a[0], ns)] if len(a) == 1 else ["bad"]
     if o is tuple:
         if len(a) == 2 and a[1] is Ellipsis:
-            return ["tuplevar", canon_type(a[0])]
-        return ["tuple", [canon_type(x) for x in a]]
+            return ["tuplevar", canon_type(a[0], ns)]
+        return ["tuple", [canon_type(x, ns) for x in a]]
     if o is dict:
-        return ["dict", canon_type(a[0]), canon_type(a[1])] if len(a) == 2 else ["bad"]
+        return ["dict", canon_type(a[0], ns), canon_type(a[1], ns)] if len(a) == 2 else ["bad"]
     if o is not None:
         return ["bad"]
     if isinstance(t, type):
+        if ns is not None and t.__name__ in ns and ns[t.__name__] is not t:
+            return A(t.__name__ + "!not-the-declared-class")
         return A(t.__name__)
     return ["bad"]
+
+
+def canonv(v, ns):
+    """canonical form of a parsed value: Python type of every part (bool/int, tuple/list, ...), floats by repr, field
+    order, and for Enum members / dataclass instances the declared CLASS of this rendering (by identity, not by name)"""
+    import dataclasses
+    import enum
+    import re
+    if isinstance(v, bool):
+        return {"t": "bool", "v": v}
+
+    def cname(c):
+        n = c.__name__
+        return n + "!not-the-declared-class" if ns is not None and n in ns and ns[n] is not c else n
+
+    if isinstance(v, enum.Enum):
+        return {"t": "enum", "c": cname(type(v)), "v": v.name}
+    if isinstance(v, int):
+        return {"t": "int", "v": str(v)}
+    if isinstance(v, float):
+        return {"t": "float", "v": repr(v)}
+    if isinstance(v, str):
+        return {"t": "str", "v": v}
+    if v is None:
+        return {"t": "none"}
+    if isinstance(v, tuple):
+        return {"t": "tuple", "v": [canonv(x, ns) for x in v]}
+    if isinstance(v, list):
+        return {"t": "list", "v": [canonv(x, ns) for x in v]}
+    if isinstance(v, dict):
+        return {"t": "dict", "c": type(v).__name__, "v": [[canonv(k, ns), canonv(x, ns)] for k, x in v.items()]}
+    if isinstance(v, type):
+        return {"t": "class", "c": cname(v)}
+    if dataclasses.is_dataclass(v):
+        fs = []
+        for f in dataclasses.fields(v):
+            try:
+                fs.append([f.name, canonv(getattr(v, f.name), ns)])
+            except AttributeError:
+                fs.append([f.name, {"t": "unset"}])
+        return {"t": "dc", "c": cname(type(v)), "v": fs}
+    return {"t": "other", "c": type(v).__name__, "v": re.sub(r" at 0x[0-9a-fA-F]+", "", repr(v))[:200]}
 
 
 def rty_of(v):
@@ -634,14 +680,14 @@ def _short(o):
     if o[0] == "ok":
         return "ok"
     if o[0] == "exit":
-        return f"exit{o[1]}"
+        return f"exit{o[1]}" + ("" if len(o) < 4 or (o[2] and not o[3]) or o[1] == 0 else f"(stderr={o[2]},stdout={o[3]})")
     return o[0] + ":" + str(o[1]) + (f"({_word(o[2])})" if len(o) > 2 else "")
 
 
 def _observer(case):
-    from implutil import canon, outcome_of, reset_simple_parsing_state
+    from implutil import outcome_of, reset_simple_parsing_state
 
-    def observe(cls):
+    def observe(cls, ns):
         import dataclasses
         import simple_parsing as sp
         from simple_parsing.wrappers.dataclass_wrapper import _get_dataclass_fields
@@ -659,7 +705,26 @@ def _observer(case):
                 got[ch._field.name] = t.type if isinstance(t, dataclasses.InitVar) else t
                 kind[ch._field.name] = "optchild" if ch.optional else "child"
             names = [f.name for f in _get_dataclass_fields(cls) if f.name in got]
-            return [[n, canon_type(got[n])] for n in names], [[n, kind[n]] for n in names]
+            return [[n, canon_type(got[n], ns)] for n in names], [[n, kind[n]] for n in names]
+
+        def options():
+            """what the parser registered: which command lines are accepted does not depend on the sampled argvs only"""
+            p = sp.ArgumentParser()
+            p.add_arguments(cls, "cfg")
+            p._preprocessing(args=[])
+            out = []
+            for a in p._actions:
+                if "-h" in a.option_strings:
+                    continue
+                out.append([sorted(a.option_strings), a.dest, repr(a.nargs), bool(a.required), canonv(a.default, ns),
+                            None if a.choices is None else canonv(list(a.choices), ns), type(a).__name__])
+            return {"t": "options", "v": out}
+
+        def full(o):
+            # exit: status + which stream the message went to; raise: class + message; ok: the canonical value
+            if o[0] == "exit":
+                return ["exit", o[1], bool(o[2].strip()), bool(o[3].strip())]
+            return o[:3] if o[0] == "raise" else o[:2]
 
         reset_simple_parsing_state()
         r = outcome_of(setup)
@@ -668,19 +733,19 @@ def _observer(case):
             kinds_ = r[1][1]
             r = ["ok", r[1][0]]
         types_ = r[:2] if r[0] != "raise" else [r[0], r[1], _word(r[2])]
-        outs = []
+        reset_simple_parsing_state()
+        outs = [full(outcome_of(options))]
         for argv in case["argvs"]:
             reset_simple_parsing_state()
 
             def go():
                 if case["api"] == "parse":
-                    return canon(sp.parse(cls, args=argv))
+                    return canonv(sp.parse(cls, args=argv), ns)
                 p = sp.ArgumentParser()
                 p.add_arguments(cls, "cfg")
-                return canon(p.parse_args(argv).cfg)
+                return canonv(p.parse_args(argv).cfg, ns)
 
-            o = outcome_of(go)
-            outs.append(o[:3] if o[0] == "raise" else o[:2])
+            outs.append(full(outcome_of(go)))
         return types_, kinds_, outs
 
     return observe
@@ -741,10 +806,12 @@ def _run_tree(case, mods):
         if r[0] == "ok":
             types_, kinds_, outs = r[1]
         else:  # the module itself could not be imported
-            types_, kinds_, outs = ["raise", "import:" + str(r[1])], [], [["raise", "import:" + str(r[1])] for _ in case["argvs"]]
+            types_, kinds_, outs = ["raise", "import:" + str(r[1])], [], [["raise", "import:" + str(r[1]), ""] for _ in [None] + case["argvs"]]
         sys.modules.pop(holder.get("name", ""), None)
+        # outs[0] / digest[0] / vals[0] = the registered options, then one entry per argv; the digest covers the value (or
+        # exit status and stream, or exception class), the message of an exception is kept for the classifier only
         out.append(dict(style=style, layout=layout, scope=scope, types=types_, kinds=kinds_, outs=[_short(o) for o in outs],
-                        digest=[_digest(o[:2]) for o in outs]))
+                        digest=[_digest(o[:2] if o[0] == "raise" else o) for o in outs], vals=outs))
     return dict(rends=out)
 
 
@@ -918,7 +985,7 @@ def py_spec(case, obs):
                     "(option / nested group / optional nested group)")
     for r in obs["rends"][1:]:
         tag = f"{r['style']}/{r['layout']}/{r['scope']}"
-        for argv, a, b, da, db in zip(case["argvs"], ref["outs"], r["outs"], ref["digest"], r["digest"]):
+        for argv, a, b, da, db in zip(["<the registered options>"] + case["argvs"], ref["outs"], r["outs"], ref["digest"], r["digest"]):
             if da != db:
                 return (f"argv {argv}: rendering {tag} ended with {b}, rendering typing/flat/module with {a}"
                         + (" (different values)" if a == b else ""))
@@ -948,11 +1015,11 @@ def _canon_rty(r):
 
 
 def _deviating(case, obs):
-    """(spellings whose renderings deviate, only-postponed?, first deviation) relative to what the class denotes /
-    to the typing-generics flat module-scope rendering"""
+    """(spellings whose renderings deviate, only-postponed?, first deviation, [(rendering, index into outs)]) relative to
+    what the class denotes / to the typing-generics flat module-scope rendering"""
     want = ["ok", _visible(_spec_flat(case["chain"]))]
     ref = obs["rends"][0]
-    dev, what = set(), None
+    dev, what, pairs = set(), None, []
 
     def eff(r):
         return (case["future_spelling"] if r["style"] == "future" else r["style"], r["style"] == "future")
@@ -966,13 +1033,134 @@ def _deviating(case, obs):
             dev.add(eff(r))
             what = what or ("setup:" + (f"{r['types'][1]}({r['types'][2] if len(r['types']) > 2 else ''})"
                                         if r["types"][0] != "ok" else "types"))
-    if what is None:
-        for r in obs["rends"][1:]:
-            for a, b, da, db in zip(ref["outs"], r["outs"], ref["digest"], r["digest"]):
-                if da != db:
+    setup_dev = what is not None
+    for r in obs["rends"][1:]:
+        for i, (a, b, da, db) in enumerate(zip(ref["outs"], r["outs"], ref["digest"], r["digest"])):
+            if da != db:
+                pairs.append((r, i))
+                if not setup_dev:
                     dev.add(eff(r))
-                    what = what or ("outcome:" + (b if a != b else "value"))
-    return sorted({d[0] for d in dev}), bool(dev) and all(d[1] for d in dev), what
+                    what = what or (("options:" if i == 0 else "outcome:") + (b if a != b else "value"))
+    return sorted({d[0] for d in dev}), bool(dev) and all(d[1] for d in dev), what, pairs, setup_dev
+
+
+def _option_tokens(argv, name):
+    """the tokens given to --name on this command line (None when the option does not occur)"""
+    if "--" + name not in argv:
+        return None
+    i = argv.index("--" + name) + 1
+    j = i
+    while j < len(argv) and not argv[j].startswith("--"):
+        j += 1
+    return argv[i:j]
+
+
+def _field_value(val, name):
+    if not (isinstance(val, dict) and val.get("t") == "dc"):
+        return None
+    for n, v in val["v"]:
+        if n == name:
+            return v
+    return None
+
+
+def _nested_union_texts(c, top=True):
+    """PEP 604 text of every union written INSIDE a generic of c (not c itself / not c minus its None)"""
+    out = []
+    k = c[0]
+    kids = [c[1]] if k in ("list", "tuplevar") else c[1] if k in ("tuple", "union") else [c[1], c[2]] if k == "dict" else []
+    if k == "union" and not top:
+        out.append(pr(render("pep604", c)))
+    for x in kids:
+        out += _nested_union_texts(x, top=(top and k == "union"))
+    return out
+
+
+def _known_evidence(case, obs, spellings, pairs, setup_dev):
+    """The observations that single out each LISTED defect (everything else keeps the symptom signature, which is
+    never listed).  EVERY deviating (rendering, argv) pair must be explained by one of them, each pair on its own
+    evidence; existential in the fields, so that the shrinker can drop the other fields / command lines."""
+    if setup_dev or not pairs:
+        return None
+    ref = obs["rends"][0]
+    flat = [f for f in case["flat"] if f["kind"] != "classvar" and f["init"] and f["cmd"]]
+    labels = [None] + case["argvs"]
+    nested = [t for f in flat for t in _nested_union_texts(f["ty"])]
+    found = set()
+    for r, i in pairs:
+        sp = case["future_spelling"] if r["style"] == "future" else r["style"]
+        a, b = ref["vals"][i], r["vals"][i]
+        # (2) a bar nested inside a builtin generic is never normalised: argparse refuses the raw types.UnionType as
+        #     type= ("int | str is not callable") when the argument is added, whatever the command line
+        msg = b[2] if b[0] == "raise" and len(b) > 2 else ""
+        if sp == "pep604" and b[0] == "raise" and b[1] == "ValueError" and msg.endswith(" is not callable") \
+                and msg[: -len(" is not callable")] in nested:
+            found.add("nested-bar-uniontype-not-callable")
+            continue
+        # (1) list of fixed tuples written with builtin generics: argparse gets the raw alias `tuple[int, str]` as type=,
+        #     which is callable (tuple(token)), so every token becomes a 1-tuple of str; typing.Tuple[..] is not: exit 2
+        hit = False
+        if sp != "typing" and i and a[0] == "exit" and a[1] == 2 and b[0] == "ok":
+            for f in flat:
+                toks = _option_tokens(labels[i], f["name"])
+                if f["ty"][0] == "list" and f["ty"][1][0] == "tuple" and toks and _field_value(b[1], f["name"]) == \
+                        {"t": "list", "v": [{"t": "tuple", "v": [{"t": "str", "v": t}]} for t in toks]}:
+                    hit = True
+        if hit:
+            found.add("list-of-tuple-tokens-become-1-tuples")
+            continue
+        return None
+    return sorted(found)[0]
+
+
+# ---- the rewriter as it stands, pinned: the listed rewriter findings are exactly the places where THIS algorithm
+# asserts / refuses; an exception anywhere else, or a different one, is a different defect -------------------------------
+
+def _ref_old_style(annotation):
+    if "|" not in annotation:
+        return annotation
+    annotation = annotation.strip()
+    if "[" not in annotation:
+        if "]" in annotation:
+            raise AssertionError
+        return "Union[" + ", ".join(v.strip() for v in annotation.split("|")) + "]"
+    before, lsep, rest = annotation.partition("[")
+    middle, rsep, after = rest.rpartition("]")
+    if after.strip():
+        raise AssertionError
+    if "|" in before or "|" in after:
+        raise NotImplementedError
+    if "|" not in middle:
+        raise AssertionError
+    if "," in middle:
+        middle = ", ".join(_ref_old_style(part.strip()) for part in middle.split(","))
+    return before + lsep + _ref_old_style(middle) + rsep + after
+
+
+def _rw_shape(t):
+    """where a printed annotation leaves what the rewriter handles"""
+    def has_bar(u):
+        return u[0] == "b" or (u[0] == "s" and any(has_bar(x) for x in u[2]))
+
+    def comma_free(u):
+        return u[0] == "n" or (u[0] == "s" and len(u[2]) == 1 and comma_free(u[2][0])) or (u[0] == "b" and all(comma_free(x) for x in u[1]))
+
+    def go(u, top):
+        if u[0] == "n":
+            return None
+        if u[0] == "b":
+            subs = [i for i, x in enumerate(u[1]) if x[0] != "n"]
+            return "bar-with-subscripted-member" if subs else None
+        for x in u[2]:
+            if has_bar(x):
+                if not comma_free(x):
+                    return "argument-with-bar-and-comma"
+                r = go(x, False)
+                if r:
+                    return r
+        return None
+
+    return go(t, True) or "handled"
 
 
 def signature(case, obs, reason):
@@ -982,11 +1170,20 @@ def signature(case, obs, reason):
         feat = "ellipsis" if "..." in text else "+".join(sorted({h.lower() for h in HEADS if h + "[" in text})) or "plain"
         return "norm:" + (str(obs["norm"][1]) if obs["norm"][0] != "ok" else "meaning") + ":" + feat
     if k == "rw":
-        if obs["rw"][0] != "ok":
-            return "rewriter:" + str(obs["rw"][1])
+        try:
+            ref = ["ok", _ref_old_style(case["s"])]
+        except (AssertionError, NotImplementedError) as e:
+            ref = ["raise", type(e).__name__]
+        got = obs["rw"][:2]
+        if got != ref:
+            return f"rewriter:changed:{got[1] if got[0] != 'ok' else 'text'}-instead-of-{ref[1] if ref[0] != 'ok' else 'text'}"
+        if got[0] != "ok":
+            t = parse_ann(case["s"])
+            return f"rewriter:{got[1]}:{_rw_shape(t) if t is not None else 'unparsed'}"
         return "rewriter:" + ("meaning" if "does not mean" in (reason or "") else "evaluate")
-    spellings, postponed_only, what = _deviating(case, obs)
-    return f"tree:{what}:{'+'.join(spellings)}" + (":postponed-only" if postponed_only else "")
+    spellings, postponed_only, what, pairs, setup_dev = _deviating(case, obs)
+    ev = _known_evidence(case, obs, spellings, pairs, setup_dev)
+    return f"tree:{ev or what}:{'+'.join(spellings)}" + (":postponed-only" if postponed_only else "")
 
 
 def nontrivial(case, obs):
